@@ -9,6 +9,7 @@ CONSTANTS
   Meds = {FALSE, TRUE}
   AllowClear = TRUE
   DeltaOpts = {TRUE, FALSE}
+  PayKinds = {"sim"}
   AsCoded = FALSE
   Withhold = FALSE
 VIEW View
